@@ -527,6 +527,8 @@ def run(pid, tier, replay_path=None):
             prof = PROFILE[pid]
             if pid == "C20" and i % 2 == 1:
                 prof, exact, dp = "extrusion", False, 3
+            if pid == "C01" and i % 10 == 9:
+                prof, exact, dp = "fine", False, 7          # motion at 7 decimal places (small coordinates, no F/S/E words)
             tr, ds = builder_drv.random_trace(sd * 1000 + i, profile=prof, exact=exact, dp=dp)
             traces.append(tr)
             descs.append(ds)
